@@ -26,7 +26,7 @@ TECHNIQUE = "online trace monitor: specification automata classify every call hi
 LEVEL_TEXT = (
     "Held on every observed history: all Rule call sequences up to the tier's length (quick 4, thorough 5) over the complete 17-symbol vocabulary, "
     "all LayerRule chains (length <= 5/6 after based_on) and all DiagramRule sequences, each followed by assert_applies; every single deletion, "
-    "duplication and adjacent transposition of every canonical complete chain; misspelt / too-deep / below-the-level-limit module names and unmatched "
+    "insertion of any vocabulary symbol, duplication and adjacent transposition of every canonical complete chain; misspelt / too-deep / below-the-level-limit module names and unmatched "
     "regexes in every position of every rule shape on random architectures; all presence combinations of the entry-point options. No MUST_RAISE "
     "history produced a verdict."
 )
@@ -54,7 +54,7 @@ def plan(tier, seed):
     n = 4 if tier == "quick" else 5
     specs = [{"kind": "rule_seq", "len": n, "first": i} for i in range(len(RULE_VOCAB))]
     specs += [{"kind": "layer_seq", "len": 5 if tier == "quick" else 6, "third": i} for i in range(len(c16.RULE_VOCAB))]
-    specs += [{"kind": "mutations"}, {"kind": "diagram"}, {"kind": "entry"}]
+    specs += [{"kind": "mutations", "part": i, "parts": 4} for i in range(4)] + [{"kind": "diagram"}, {"kind": "entry"}]
     specs += [{"kind": "misspelt", "n": 250 if tier == "quick" else 6000} for _ in range(4 if tier == "quick" else 10)]
     return specs
 
@@ -166,8 +166,11 @@ def canonical_layer_chains():
     return chains
 
 
-def mutations(chain):
+def mutations(chain, vocab=()):
     out = []
+    for i in range(len(chain) + 1):
+        for sym in vocab:
+            out.append(("insert", chain[:i] + [sym] + chain[i:]))
     for i in range(len(chain)):
         out.append(("delete", chain[:i] + chain[i + 1 :]))
         out.append(("duplicate", chain[: i + 1] + [chain[i]] + chain[i + 1 :]))
@@ -192,18 +195,22 @@ def run_shard(spec, acc):
         dfs_layer([c16.RULE_VOCAB[0], c16.RULE_VOCAB[1], c16.RULE_VOCAB[spec["third"]]], spec["len"], acc)
         acc.flags["exhaustive_layer_sequences"] = True
     elif k == "mutations":
-        for chain in canonical_rule_chains():
+        for ci, chain in enumerate(canonical_rule_chains()):
+            if ci % spec["parts"] != spec["part"]:
+                continue
             run_rule_seq(chain, acc)
             acc.count("canonical_chains")
-            for kind, m in mutations(chain):
+            for kind, m in mutations(chain, RULE_VOCAB):
                 if run_rule_seq(m, acc) is not None:
                     acc.evaluated()
                 acc.hist("mutation_kind", "rule:" + kind)
                 acc.nontrivial({"m": m})
-        for chain in canonical_layer_chains():
+        for ci, chain in enumerate(canonical_layer_chains()):
+            if ci % spec["parts"] != spec["part"]:
+                continue
             run_layer_seq(chain, acc)
             acc.count("canonical_chains")
-            for kind, m in mutations(chain):
+            for kind, m in mutations(chain, c16.RULE_VOCAB[1:]):
                 if run_layer_seq(m, acc) is not None:
                     acc.evaluated()
                 acc.hist("mutation_kind", "layer:" + kind)
